@@ -31,7 +31,8 @@
 
 static int32_t count_leaves(const parquet_schema_element_t* elements, int32_t count) {
     int32_t leaves = 0;
-    for (int32_t i = 0; i < count; i++) {
+    /* element 0 is the root: never a column, even when it has no children */
+    for (int32_t i = 1; i < count; i++) {
         if (elements[i].num_children == 0) {
             leaves++;
         }
@@ -178,9 +179,11 @@ carquet_schema_t* build_schema(
     schema->capacity = metadata->num_schema_elements;  /* Fixed size from file */
     schema->num_leaves = count_leaves(metadata->schema, metadata->num_schema_elements);
 
-    schema->leaf_indices = carquet_arena_calloc(arena, schema->num_leaves, sizeof(int32_t));
-    schema->max_def_levels = carquet_arena_calloc(arena, schema->num_leaves, sizeof(int16_t));
-    schema->max_rep_levels = carquet_arena_calloc(arena, schema->num_leaves, sizeof(int16_t));
+    /* a schema without columns still gets (unused) one-element arrays */
+    int32_t leaf_slots = schema->num_leaves > 0 ? schema->num_leaves : 1;
+    schema->leaf_indices = carquet_arena_calloc(arena, leaf_slots, sizeof(int32_t));
+    schema->max_def_levels = carquet_arena_calloc(arena, leaf_slots, sizeof(int16_t));
+    schema->max_rep_levels = carquet_arena_calloc(arena, leaf_slots, sizeof(int16_t));
 
     if (!schema->leaf_indices || !schema->max_def_levels || !schema->max_rep_levels) {
         CARQUET_SET_ERROR(error, CARQUET_ERROR_OUT_OF_MEMORY, "Failed to allocate schema arrays");
